@@ -124,6 +124,12 @@ func genData(r *rig.Rand, w *rig.Writer) []byte {
 		w.Count("data=empty")
 		return []byte{}
 	case 1:
+		if r.Chance(40) {
+			// longer than the 4096-byte buffers of the connection's bufio.Reader/Writer: the request
+			// is parsed across a refill of the read buffer, the reply written across a flush
+			w.Count("data=beyond-io-buffer")
+			return r.Bytes(3900 + r.Intn(5000))
+		}
 		w.Count("data=large")
 		return r.Bytes(1000 + r.Intn(2500))
 	case 2:
